@@ -560,6 +560,8 @@ static int ref_chunk_size_line(const ref_u8 *p, size_t n, unsigned long long *si
 struct ref_chunked {
 	int status, reject_reason;
 	int saw_ext;             /* some chunk-size line carried an extension */
+	int reject_at_eol;       /* REJECT/AFTER_DATA, but no LF follows the offending octets yet: a recipient that
+	                          * works line by line reports the error when that line is complete (MORE until then) */
 	size_t consumed;         /* at DONE: bytes up to and including the last-chunk line */
 	size_t body_len;         /* octets of all complete chunks */
 	size_t nchunks;          /* complete non-empty chunks; chunk i is stream[c_off[i], c_off[i]+c_len[i]) */
@@ -593,7 +595,7 @@ static int ref_chunk_size_line_lenient(const ref_u8 *p, size_t n, unsigned long 
 static void ref_chunked_decode(const ref_u8 *p, size_t n, int lenient, struct ref_chunked *c)
 {
 	size_t pos = 0, ci, i;
-	c->status = REF_C_MORE; c->reject_reason = REF_CR_NONE; c->saw_ext = 0; c->consumed = 0; c->body_len = 0; c->nchunks = 0;
+	c->status = REF_C_MORE; c->reject_reason = REF_CR_NONE; c->saw_ext = 0; c->reject_at_eol = 0; c->consumed = 0; c->body_len = 0; c->nchunks = 0;
 	for (ci = 0; ci < REF_MAXCHUNKS; ci++) {
 		size_t lf = n, le;
 		unsigned long long size;
@@ -623,12 +625,20 @@ static void ref_chunked_decode(const ref_u8 *p, size_t n, int lenient, struct re
 		if (p[pos + size] == '\r') {
 			if (pos + size + 1 == n)
 				return; /* MORE */
-			if (p[pos + size + 1] != '\n') { c->status = REF_C_REJECT; c->reject_reason = REF_CR_AFTER_DATA; return; }
+			if (p[pos + size + 1] != '\n') {
+				size_t j; int lf_follows = 0;
+				for (j = pos + size; j < REF_MAXSTREAM && j < n; j++)
+					if (p[j] == '\n') lf_follows = 1;
+				c->status = REF_C_REJECT; c->reject_reason = REF_CR_AFTER_DATA; c->reject_at_eol = !lf_follows; return;
+			}
 			pos += size + 2;
 		} else if (lenient && p[pos + size] == '\n') {
 			pos += size + 1;
 		} else {
-			c->status = REF_C_REJECT; c->reject_reason = REF_CR_AFTER_DATA; return;
+			size_t j; int lf_follows = 0;
+			for (j = pos + size; j < REF_MAXSTREAM && j < n; j++)
+				if (p[j] == '\n') lf_follows = 1;
+			c->status = REF_C_REJECT; c->reject_reason = REF_CR_AFTER_DATA; c->reject_at_eol = !lf_follows; return;
 		}
 	}
 }
